@@ -218,20 +218,27 @@ Definition denote_toml (content : bytes) (root : node) : option (list titem) :=
 (* the spellings the parsers are known to misread (KNOWN_FINDINGS: toml-quoted-key, toml-literal-string; keys written
    with blanks around the dot): every key is bare / dotted-bare without blanks, every string is a basic string
    without backslashes *)
-Definition plain_here (content kind : bytes) (sb eb : N) : bool :=
+Definition plain_here (lit : bool) (content kind : bytes) (sb eb : N) : bool :=
   if beq kind tk_quoted_key then false
   else if beq kind tk_bare_key || beq kind tk_dotted_key then
     match slice content sb eb with Some t => plain_key_text t | None => false end
   else if beq kind tk_string then
     match slice content sb eb with
-    | Some t => match quoted_inner 34 t with Some inner => no_byte 34 inner && no_byte 92 inner && no_byte 10 inner | None => false end
+    | Some t => match quoted_inner 34 t with
+                | Some inner => no_byte 34 inner && no_byte 92 inner && no_byte 10 inner
+                | None => if lit then match quoted_inner 39 t with Some inner => no_byte 39 inner && no_byte 10 inner | None => false end
+                          else false
+                end
     | None => false
     end
   else true.
-Fixpoint plain_toml (content : bytes) (n : node) : bool :=
+(* [lit]: literal strings '...' count as plain too (pyproject.toml: the parser reads them like basic strings) *)
+Fixpoint plain_toml_gen (lit : bool) (content : bytes) (n : node) : bool :=
   let 'Node kind _ sb eb _ _ _ ch := n in
-  plain_here content kind sb eb
-  && (fix go (l : list node) : bool := match l with [] => true | c :: t => plain_toml content c && go t end) ch.
+  plain_here lit content kind sb eb
+  && (fix go (l : list node) : bool := match l with [] => true | c :: t => plain_toml_gen lit content c && go t end) ch.
+Notation plain_toml := (plain_toml_gen false).
+Notation plain_pyproject := (plain_toml_gen true).
 
 (* ---------- Cargo.toml ---------- *)
 Definition w_dependencies : bytes := [100;101;112;101;110;100;101;110;99;105;101;115].
@@ -319,3 +326,53 @@ Definition cargo_known (d : list titem) : bool :=
 Definition entry_shape_ok (e : tkv) : bool := match e with (_ :: _ :: _, TInline _) => false | _ => true end.
 Definition cargo_shape_ok (d : list titem) : bool :=
   forallb (fun i => match i with ITable h l => negb (is_dep_table h) || forallb entry_shape_ok l | _ => true end) d.
+
+(* ---------- pyproject.toml ---------- *)
+(* PEP 621 project.dependencies and project.optional-dependencies.<group>, PEP 518 build-system.requires: arrays of
+   PEP 508 requirement strings.  [req] is the reading of one requirement string: the (normalised) project name and the
+   version specifiers of a requirement that names a registry release; None for URL requirements and invalid strings. *)
+Definition w_project : bytes := [112;114;111;106;101;99;116].
+Definition w_build_system : bytes := [98;117;105;108;100;45;115;121;115;116;101;109].
+Definition w_requires : bytes := [114;101;113;117;105;114;101;115].
+Definition w_optional_dependencies : bytes := [111;112;116;105;111;110;97;108;45;100;101;112;101;110;100;101;110;99;105;101;115].
+Section PyprojectRef.
+Variable req : bytes -> option (bytes * bytes).
+Definition req_of (v : tval) : list (bytes * bytes) :=
+  match v with TStr s => match req s with Some p => [p] | None => [] end | _ => [] end.
+Definition array_reqs (v : tval) : list (bytes * bytes) := match v with TArr vs => flat_map req_of vs | _ => [] end.
+(* the entry at the full key path [full] (table header followed by the pair's key) *)
+Definition py_entry_decl (full : kpath) (v : tval) : list (bytes * bytes) :=
+  if path_eqb full [w_project; w_dependencies] || path_eqb full [w_build_system; w_requires] then array_reqs v
+  else match full with
+       | [a; b; _] => if beq a w_project && beq b w_optional_dependencies then array_reqs v else []
+       | [a; b] => if beq a w_project && beq b w_optional_dependencies
+                   then match v with TInline m => flat_map (fun e => match fst e with [_] => array_reqs (snd e) | _ => [] end) m | _ => [] end
+                   else []
+       | _ => []
+       end.
+Definition declared_pyproject (d : list titem) : list (bytes * bytes) :=
+  flat_map (fun i => match i with
+                     | IPair k v => py_entry_decl k v
+                     | ITable h l => flat_map (fun e => py_entry_decl (h ++ fst e) (snd e)) l
+                     | IArrTable _ _ => []
+                     end) d.
+End PyprojectRef.
+(* the three (header, key) spellings the parser reads *)
+Definition py_literal_form (h k : kpath) : bool :=
+  (path_eqb h [w_project] && path_eqb k [w_dependencies]) || (path_eqb h [w_build_system] && path_eqb k [w_requires])
+  || (path_eqb h [w_project; w_optional_dependencies] && match k with [_] => true | _ => false end).
+Definition py_path_hit (full : kpath) : bool :=
+  path_eqb full [w_project; w_dependencies] || path_eqb full [w_build_system; w_requires]
+  || match full with
+     | [a; b; _] | [a; b] => beq a w_project && beq b w_optional_dependencies
+     | _ => false
+     end.
+(* known class (pyproject-dotted-or-inline-sections): a dependency section reached through dotted keys or written as
+   an inline table; and keys with several components inside [project.optional-dependencies] (not a PEP 621 document) *)
+Definition pyproject_known (d : list titem) : bool :=
+  existsb (fun i => match i with
+                    | IPair k _ => py_path_hit k
+                    | ITable h l => existsb (fun e => (py_path_hit (h ++ fst e) && negb (py_literal_form h (fst e)))
+                                                      || (path_eqb h [w_project; w_optional_dependencies] && match fst e with [_] => false | _ => true end)) l
+                    | IArrTable _ _ => false
+                    end) d.
